@@ -90,4 +90,48 @@ def run(ck):
     ck.need(len(resp_edges) >= 3, "C28: expected 3 failing-parse edges, found %d" % len(resp_edges))
     ck.require_response("R2.parse-failure-rejects", fn, E.m_calls("httpHeaderParseOffset"), False, ev_return(E.m_const(0)), "return false")
     ck.require_response("R2.unknown-rejects", fn, E.m_cmp("<", E.m_const(-1), E.m_any()), False, ev_return(E.m_const(0)), "return false", min_edges=3)
+    ck.rule("R3 HttpHdrRangeSpec::canonize: every return is reached only after `length` was clipped to the representation, i.e. assigned the size() of "
+            "object.intersection(HttpRange(offset, ...)) with object = HttpRange(0, clen), and after the last assignment to `offset` (a suffix range longer than "
+            "the object, bytes=-101 of 100, must not keep its unclipped length: 206 would announce bytes 0-100/100)")
+    cz = facts.fn("HttpHdrRangeSpec::canonize")
+    pclen = cz.params[0]["d"] if cz.params else "?"
+    objs = [ev["d"] for b in cz.blocks.values() for ev in b["ev"] if ev.get("e") == "decl" and E.strip(ev.get("init") or {}).get("k") == "ctor"
+            and len(E.strip(ev["init"]).get("a", [])) == 2 and E.const(E.strip(ev["init"])["a"][0]) == 0 and E.m_is_ref(pclen)(E.strip(ev["init"])["a"][1])]
+    ck.need(len(objs) == 1, "C28: canonize no longer builds the object range HttpRange(0, clen)")
+    OFF, LEN = "HttpHdrRangeSpec::offset", "HttpHdrRangeSpec::length"
+
+    def clipped_from(t):
+        """t is object.intersection(Range{offset, _})"""
+        t = E.strip(t)
+        if t.get("k") != "call" or t.get("f", "").split("::")[-1] != "intersection" or not E.m_is_ref(objs[0])(t.get("o")):
+            return False
+        a = E.strip(t["a"][0])
+        return a.get("k") == "ctor" and len(a.get("a", [])) == 2 and E.m_is_mem(OFF)(a["a"][0])
+
+    clip_events = set()
+    for b in cz.blocks.values():
+        inits = {}
+        for ev in b["ev"]:
+            if ev.get("e") == "decl" and ev.get("init") is not None:
+                inits[ev["d"]] = ev["init"]
+            if ev.get("e") == "asg" and E.m_is_mem(LEN)(ev.get("lhs")):
+                r = E.strip(ev.get("rhs"))
+                if r.get("k") == "call" and r.get("f", "").split("::")[-1] == "size":
+                    o = E.strip(r.get("o"))
+                    src = inits.get(o.get("d")) if o.get("k") == "ref" else o
+                    if src is not None and clipped_from(src):
+                        clip_events.add(id(ev))
+    ck.need(clip_events, "C28: canonize no longer assigns length from object.intersection(HttpRange(offset, ...)).size()")
+
+    def forget_on_offset_write(ev, env, fs):
+        if ev.get("e") == "asg" and E.m_is_mem(OFF)(ev.get("lhs")):
+            env.pop("#clip", None)
+    czf = ck.flow(cz, markers={"clip": lambda ev: id(ev) in clip_events}, track_markers=["clip"], on_event=forget_on_offset_write)
+    for st in ck.sites(czf, ev_return(), "return", 1):
+        if st.env.get("#clip") == 1:
+            ck.ok("R3.canonical-range-inside-object", st.where(), "canonize returns only after length was clipped to [0, clen) for the final offset")
+        else:
+            ck.violation("R3.canonical-range-inside-object", "R3|canonize|return-without-clip", st.where(),
+                         "canonize can return on a path where `length` was not clipped to the representation after `offset` got its final value: the canonical range "
+                         "may extend beyond the object (Content-Range/Content-Length of the 206 exceed the body)", czf.witness(st))
     ck.assume("canonize()/merge arithmetic operates on values already bounded by parseInit and the content length; that dependency is not proved here")
